@@ -180,13 +180,17 @@ Record SolOK (eps tol t : Qc) (die : Rect) (mods : list module) (cells : list ce
 Inductive outcome := Finished (ms : list module) (cells : list cell) | Raised | OutOfFuel.
 
 Section Loop.
-(* one solver answer per optimisation problem (iteration number, modules, cells) *)
-Variable solver : nat -> list module -> list cell -> Sol.
+(* one solver answer per optimisation problem (iteration number, modules, cells);
+   None = GEKKO raises ("Solution Not Found" ...) *)
+Variable solver : nat -> list module -> list cell -> option Sol.
 Variables aeps t : Qc.
 
 (* optimize_allocation = build the model, solve, extract_solution *)
 Definition optimize (n : nat) (ms : list module) (cells : list cell) : option (list module * list cell) :=
-  extract (solver n ms cells) aeps t ms (map crect cells).
+  match solver n ms cells with
+  | None => None
+  | Some sol => extract sol aeps t ms (map crect cells)
+  end.
 
 (* while max_iter is None or n_iter <= max_iter:
      if n_iter > 1: if must_be_refined: refine else: break
@@ -220,4 +224,37 @@ Fixpoint glb_loop (fuel : nat) (max_iter : option nat) (n_iter : nat)
 (* glbfloor after create_initial_allocation: n_iter starts at 1 *)
 Definition glbfloor (fuel : nat) (max_iter : option nat) (ms : list module) (cells : list cell) : outcome :=
   glb_loop fuel max_iter 1 ms cells.
+
+(* "the solver contract holds at every optimisation of this run": follows the same recursion *)
+Section Along.
+Variables (eps tol : Qc) (die : Rect).
+Definition sol_ok_at (n : nat) (ms : list module) (cells : list cell) : Prop :=
+  forall sol, solver n ms cells = Some sol -> SolOK eps tol t die ms cells sol.
+Fixpoint sol_ok_along (fuel : nat) (max_iter : option nat) (n_iter : nat)
+                      (ms : list module) (cells : list cell) : Prop :=
+  match fuel with
+  | O => True
+  | S f =>
+      if match max_iter with None => true | Some k => (n_iter <=? k)%nat end then
+        if (1 <? n_iter)%nat then
+          if must_be_refined t cells then
+            match refine aeps t 1 cells with
+            | None => True
+            | Some cells1 =>
+                sol_ok_at n_iter ms cells1 /\
+                match optimize n_iter ms cells1 with
+                | None => True
+                | Some (ms', cells') => sol_ok_along f max_iter (S n_iter) ms' cells'
+                end
+            end
+          else True
+        else
+          sol_ok_at n_iter ms cells /\
+          match optimize n_iter ms cells with
+          | None => True
+          | Some (ms', cells') => sol_ok_along f max_iter (S n_iter) ms' cells'
+          end
+      else True
+  end.
+End Along.
 End Loop.
